@@ -11,6 +11,7 @@ Tables (the SQLite schema of stream (c) and the closed schema of the scope model
   v(id,s,dt,x,y)               -- text / date / float columns
   `my table`(a, `order`, `a b`, Mixed)
   w(a,g), w1(a)                -- bare tables whose columns are exactly {a, g}: a legitimate wildcard operand of set operations
+  Table_0(a,g)                 -- a user table spelled like a generated CTE name in another letter case (fix 99a89d3)
 """
 from ..rel import prog as P
 
@@ -21,6 +22,7 @@ SCHEMA = {
     "my table": ["a", "order", "a b", "Mixed"],
     "w": ["a", "g"],
     "w1": ["a"],
+    "Table_0": ["a", "g"],
 }
 
 
@@ -231,8 +233,16 @@ class G:
 
     def f_literal(self):
         r = self.r
-        k = r.randint(0, 6)
+        k = r.randint(0, 7)
         tags = {"literal"}
+        if k == 7:
+            # a string literal with a backslash -- at its end it swallows the closing quote where the engine reads backslash
+            # escapes unless the compiler doubles it (fix d2c1667; sql.bigquery was left as it is: C07-N13)
+            lit = self.pick(['"a\\\\"', '"\\\\"', '"a\\\\\'b"', "'it\\\\'", '"C:\\\\dir\\\\"', 'r"a\\"'])
+            src = self.pick(["from t\nderive {x = %s}\nfilter b == 3", 'from t\nfilter (a | as text) == %s\nselect {a, y = "z"}',
+                             "from [{a = 1, b = %s}]\nderive {c = \"k\"}"]) % lit
+            tags.add("backslash")
+            return src, tags
         if k == 0:
             src = 'from [{a = 1, b = "x"}, {a = 2, b = "y"}]'
         elif k == 1:
@@ -517,8 +527,58 @@ class G:
             tags.add("open_take")
         return src, tags
 
-    FAMILIES = ["core", "core_nosel", "window", "setops", "loop", "literal", "cast_std", "sstring", "join", "let", "take", "empty", "sort_dropped", "quoted", "distinct"]
-    WEIGHTS = [5, 2, 3, 4, 1.5, 1.5, 3, 1.5, 3, 1.5, 3, 1, 1.5, 1.2, 1.2]
+    def f_sort_setop(self):
+        """a sort in effect in front of append / remove / intersect / loop, its key kept or dropped by the select before the
+        operation (C07-N12: the sort column is added to the first operand only)"""
+        r = self.r
+        key = self.pick(["a", "b", "b", "{-b, id}", "c", "{a}"])
+        op = self.pick(["append", "append", "remove", "intersect", "loop", "loop"])
+        mid = self.pick(["", "", "take 3\n", "filter a > 0\n", "derive {z = b + 1}\n"])
+        tags = {"sort_setop", op}
+        if op == "loop":
+            top = "from t\nsort %s\n%sselect {n = a}" % (key, mid)
+            body = self.pick(["filter n < 4 | select {n = n + 1}", "filter n < 3 | derive {k = n + 1} | select {n = k}", "filter n < 4"])
+            src = "%s\nloop (%s)" % (top, body)
+            post = self.pick(["", "", "\ntake 3", "\nsort n", "\naggregate {s = sum n}", "\njoin u (u.id == n)\nselect {n, u.d}"])
+        else:
+            cl = self.pick(["a", "a, g", "n = a"])
+            top = "from t\nsort %s\n%sselect {%s}" % (key, mid, cl)
+            bot = self.pick(["from u | select {%s}" % cl, "from u | filter a > 1 | select {%s}" % cl, "from u | sort d | select {%s}" % cl])
+            src = "%s\n%s (%s)" % (top, op, bot)
+            post = self.pick(["", "", "\ntake 3", "\nsort %s" % ("n" if cl.startswith("n") else "a"), "\naggregate {c = count this}", "\nfilter %s > 1" % ("n" if cl.startswith("n") else "a")])
+        return src + post, tags
+
+    # programs whose defect was repaired in /repo (a recurrence has no classifier: VIOLATION)
+    REPAIRED = [
+        ("99a89d3", "from Table_0\nderive {w = sum a}\nfilter w > 1"),
+        ("99a89d3", "from Table_0\nselect {a, g}\ntake 3\nfilter a > 1\nsort g\ntake 2"),
+        ("99a89d3", "from t\njoin Table_0 (t.a == Table_0.a)\ntake 3\nfilter t.b > 1\nselect {t.a, Table_0.g}"),
+        ("99a89d3", "from t\njoin TABLE_0 = u (==id)\ntake 3\nfilter t.a > 1\nselect {t.a, TABLE_0.d}"),
+        ("a131b2a", "let x = (from u)\nfrom t\nderive {y = x}"),
+        ("a131b2a", "from t\nderive {y = math}"),
+        ("a131b2a", "let x = (from u | select {a})\nfrom t\nfilter a == x"),
+        ("f0c772e", "from u\nselect {a, g}\nremove (from w)"),
+        ("f0c772e", "from w\nremove (from t | filter a > 0 | select {a, g})\naggregate {n = count this}"),
+        ("f0c772e", "from u\nselect {a, g}\nintersect (from w)\nselect {a}"),
+        ("6d6f07a", "from t\nselect {a, g}\nappend (from w)"),
+        ("6d6f07a", "from w\nappend (from t | select {a, g})\ntake 3"),
+        ("7b31f75", "from t\nwindow rows:1..0 (derive {w = sum a})"),
+        ("7b31f75", "from t\ngroup {g} (window range:2..1 (sort a | derive {w = sum a}))"),
+        ("3561315", "from t\ngroup {g} (sort a | take 1)\nselect {g, a}\ngroup {g, a} (take 1)"),
+        ("eae33f3", "from t\ngroup {g} (sort a | take 2..1)"),
+        ("755de8e", "from t\nderive {_expr_0 = a}\nsort {-b + c}\ntake 3\nfilter _expr_0 > 1"),
+        ("e9c9719", "from t\nselect {a, g}\ngroup {a, g} (take 1)\njoin y = (from u | select {a, g}) (t.a == y.g && t.g == y.a)\nselect {t.a, t.g}"),
+        ("21d8d82", "from t\nselect {a, g}\ngroup {a, g} (take 1)\njoin y = (from u | select {a, g}) (t.a == y.a && t.g == y.g)\nselect {t.a, t.g, k = y.g}"),
+        ("8204886", 'from_text """\na,b\n"""\nderive {c = a}'),
+        ("287b286", "from [{a = 1 + 1}]"),
+    ]
+
+    def f_repaired(self):
+        c, src = self.pick(self.REPAIRED)
+        return src, {"repaired", "fix:" + c}
+
+    FAMILIES = ["core", "core_nosel", "window", "setops", "loop", "literal", "cast_std", "sstring", "join", "let", "take", "empty", "sort_dropped", "quoted", "distinct", "sort_setop", "repaired"]
+    WEIGHTS = [5, 2, 3, 4, 1.5, 1.5, 3, 1.5, 3, 1.5, 3, 1, 1.5, 1.2, 1.2, 1.5, 1]
 
     def case(self, fam=None):
         fam = fam or self.r.choices(self.FAMILIES, weights=self.WEIGHTS)[0]
